@@ -32,6 +32,11 @@ later one with every retryable failure kind. There, an unacknowledged attempt an
 retry may carry the same events (at-least-once), but no event may be in two *acknowledged* requests,
 and every request that carries an event must be on the endpoint of its one signal.
 
+Two more sections: a request answered with a complete `200` head announcing a body, after which the
+collector closes the connection gracefully (its events must not be exported again; asserted only if
+the re-send happens in all 4 repetitions), and 4..16 threads emitting at the same moment through one
+emitter (the discard counter must be exact, the exported rest is accounted as usual).
+
 The request path and the port it arrived on must name the same signal.
 A scenario whose `blocking_flush` returns false, or whose requests cannot be decoded, is
 inconclusive (encoding fidelity is C13's business).
@@ -40,7 +45,7 @@ inconclusive (encoding fidelity is C13's business).
 #[path = "../shared/collector.rs"]
 mod collector;
 
-use std::{collections::HashMap, time::Duration};
+use std::{collections::{BTreeSet, HashMap}, time::Duration};
 
 use collector::*;
 use emit::Emitter as _;
@@ -294,6 +299,24 @@ impl std::fmt::Display for Shown {
     }
 }
 
+fn new_store() -> Store {
+    Store {
+        ints: vec![1, -2, 3],
+        floats: vec![0.5, -1.5],
+        mixed: vec![Num::I(1), Num::F(2.5), Num::I(-3)],
+        empty: vec![],
+        nested: vec![vec![1, 2], vec![3]],
+        with_text: vec![NumOrText::I(1), NumOrText::T("two"), NumOrText::I(3)],
+        kind_span: emit::Kind::Span,
+        kind_metric: emit::Kind::Metric,
+        owned: [emit::Value::from_any(&emit::Kind::Span).to_owned(), emit::Value::from_any(&emit::Kind::Metric).to_owned()],
+        shared: [emit::Value::from_any(&emit::Kind::Span).to_shared(), emit::Value::from_any(&emit::Kind::Metric).to_shared()],
+        shown: [Shown("span"), Shown("metric")],
+        strings: ["span".to_string(), "metric".to_string()],
+        ctxt: emit::platform::thread_local_ctxt::ThreadLocalCtxt::new(),
+    }
+}
+
 #[derive(Clone, Debug)]
 struct Ev {
     vid: u64,
@@ -507,21 +530,7 @@ fn run(r: &mut Report, sc: &Scenario, seed: u64) {
     let col = Collector::start(cfgs);
     let otlp = build_otlp(&col, sc.transport, sc.gzip, sc.subset);
     let discarded_before = otlp.metric_source().event_discarded();
-    let st = Store {
-        ints: vec![1, -2, 3],
-        floats: vec![0.5, -1.5],
-        mixed: vec![Num::I(1), Num::F(2.5), Num::I(-3)],
-        empty: vec![],
-        nested: vec![vec![1, 2], vec![3]],
-        with_text: vec![NumOrText::I(1), NumOrText::T("two"), NumOrText::I(3)],
-        kind_span: emit::Kind::Span,
-        kind_metric: emit::Kind::Metric,
-        owned: [emit::Value::from_any(&emit::Kind::Span).to_owned(), emit::Value::from_any(&emit::Kind::Metric).to_owned()],
-        shared: [emit::Value::from_any(&emit::Kind::Span).to_shared(), emit::Value::from_any(&emit::Kind::Metric).to_shared()],
-        shown: [Shown("span"), Shown("metric")],
-        strings: ["span".to_string(), "metric".to_string()],
-        ctxt: emit::platform::thread_local_ctxt::ThreadLocalCtxt::new(),
-    };
+    let st = new_store();
     for ev in &sc.events {
         if let Err(msg) = catch(|| emit_one(&otlp, ev, &st)) {
             r.violation(
@@ -918,6 +927,327 @@ fn run_split(r: &mut Report, seed: u64, case: u64) {
     drop(col);
 }
 
+// ---------------------------------------------------------------------------
+// an acknowledged HTTP request whose response body never completes because the connection is closed
+// ---------------------------------------------------------------------------
+
+const HEAD_CLOSE_REPS: usize = 4;
+
+/// The collector answers one request with a complete `200` head that announces a body (content-length or
+/// chunked), then closes the connection gracefully before / inside that body. A 2xx answer is not one of
+/// the failures of the statement, so the events of that request must not be exported again. One
+/// repetition: was any event of that request in a later request?
+fn head_close_once(seed: u64, case: u64, rep: usize, transport: Transport, gzip: bool, subset: u8, decision: Decision, big: bool) -> Result<(bool, Json), String> {
+    let mut g = Rng::stream(seed, &[14, 4, case, rep as u64]);
+    let configured: Vec<Signal> = Signal::ALL.into_iter().filter(|s| subset & s.bit() != 0).collect();
+    let cfgs = configured
+        .iter()
+        .map(|s| {
+            let script = if big { vec![Decision::HoldAck(3_000), decision] } else { vec![decision] };
+            EndpointCfg { signal: *s, wire: transport.wire(), listen: true, script }
+        })
+        .collect();
+    let col = Collector::start(cfgs);
+    let otlp = build_otlp(&col, transport, gzip, subset);
+    let kinds: Vec<u64> = (0..3u64).filter(|k| split_signal(*k, subset).is_some()).collect();
+    let mut vid = case * 100_000 + rep as u64 * 10_000;
+    let pad_src = "emit ".repeat(140_000);
+    if big {
+        for s in &configured {
+            let kind = match s {
+                Signal::Logs => 0,
+                Signal::Traces => 1,
+                Signal::Metrics => 2,
+            };
+            emit_big(&otlp, vid, kind, "p");
+            vid += 1;
+        }
+        let live = configured.clone();
+        if !col.wait_until(Duration::from_secs(15), |recs| live.iter().all(|s| recs.iter().any(|rec| rec.endpoint == *s && rec.seq == 0 && rec.body_read.is_some()))) {
+            col.release_gate();
+            return Err("the primer requests did not arrive within 15 s".into());
+        }
+        // more than 2 MiB per signal: the batch is split, the closed-on request is followed by others
+        let mut per_signal: HashMap<Signal, usize> = HashMap::new();
+        while configured.iter().any(|s| per_signal.get(s).copied().unwrap_or(0) < 2 * MIB + MIB / 4) {
+            let kind = *g.pick(&kinds);
+            let sig = split_signal(kind, subset).unwrap();
+            let pad = 300_000 + g.usize(400_000);
+            *per_signal.entry(sig).or_insert(0) += pad;
+            emit_big(&otlp, vid, kind, &pad_src[..pad]);
+            vid += 1;
+        }
+        col.release_gate();
+    } else {
+        for _ in 0..(2 + g.usize(6)) {
+            emit_big(&otlp, vid, *g.pick(&kinds), &pad_src[..g.usize(300)]);
+            vid += 1;
+        }
+    }
+    if !otlp.blocking_flush(Duration::from_secs(60)) {
+        return Err("blocking_flush returned false (60 s)".into());
+    }
+    // a second batch: whatever the emitter does with the closed connection, something is sent afterwards
+    for _ in 0..(1 + g.usize(4)) {
+        emit_big(&otlp, vid, *g.pick(&kinds), &pad_src[..g.usize(300)]);
+        vid += 1;
+    }
+    if !otlp.blocking_flush(Duration::from_secs(60)) {
+        return Err("the second blocking_flush returned false (60 s)".into());
+    }
+    col.settle();
+    let records = col.records();
+    let mut sets: HashMap<usize, BTreeSet<u64>> = HashMap::new();
+    for rec in &records {
+        if rec.body.is_some() && rec.note.is_none() {
+            if let Ok(items) = rec.items() {
+                sets.insert(rec.idx, items.iter().filter_map(|i| i.vid()).collect());
+            }
+        }
+    }
+    let mut hit = 0;
+    let mut resent = false;
+    let mut witness = json!(null);
+    for first in records.iter().filter(|rec| rec.decision == decision && rec.responded.is_some()) {
+        hit += 1;
+        let Some(set) = sets.get(&first.idx) else { continue };
+        if let Some(again) = records.iter().find(|later| later.endpoint == first.endpoint && later.seq > first.seq && sets.get(&later.idx).map(|l| !l.is_disjoint(set)).unwrap_or(false)) {
+            resent = true;
+            witness = json!({"answered_with_2xx_then_closed": first.brief(), "events": set.len(), "sent_again_in": again.brief(), "again_events": sets[&again.idx].intersection(set).count()});
+        }
+    }
+    drop(otlp);
+    drop(col);
+    if hit == 0 {
+        return Err("the scripted 2xx-head-then-close decision was not reached".into());
+    }
+    Ok((resent, witness))
+}
+
+fn run_head_close(r: &mut Report, seed: u64, case: u64) {
+    r.eval();
+    let transport = [Transport::HttpJson, Transport::HttpProto][(case % 2) as usize];
+    let gzip = case / 2 % 2 == 0;
+    let chunked = case / 4 % 2 == 1;
+    let in_body = case / 8 % 2 == 1;
+    let big = case / 16 % 2 == 1;
+    let subset = [1u8, 2, 4, 7, 3, 6][(case / 32 + case / 2) as usize % 6];
+    let decision = Decision::AckThenClose { chunked, in_body };
+    let flavour = format!("{}:{}:{}:{}", if chunked { "chunked" } else { "content-length" }, if in_body { "inside-the-body" } else { "before-the-body" }, if gzip { "gzip" } else { "plain" }, if big { "split-batch" } else { "small-batch" });
+    let mut resent = 0;
+    let mut done = 0;
+    let mut witness = json!(null);
+    for rep in 0..HEAD_CLOSE_REPS {
+        match head_close_once(seed, case, rep, transport, gzip, subset, decision, big) {
+            Ok((again, w)) => {
+                done += 1;
+                if again {
+                    resent += 1;
+                    witness = w;
+                }
+            }
+            Err(why) => {
+                r.observe("head-close:repetitions-inconclusive", 1);
+                r.inconclusive(format!("2xx-head-then-close scenario: {}", why));
+            }
+        }
+    }
+    r.observe("head-close:repetitions-run", done as u64);
+    r.observe(&format!("head-close:flavour:{}:{}:{}", transport.name(), if chunked { "chunked" } else { "content-length" }, if in_body { "inside-the-body" } else { "before-the-body" }), 1);
+    if done == HEAD_CLOSE_REPS {
+        r.nontrivial(&("head-close", transport.name(), chunked, in_body, gzip, big, subset));
+    }
+    if resent == 0 {
+        r.observe("head-close:never-sent-again", 1);
+    } else if resent == done && done == HEAD_CLOSE_REPS {
+        // a deterministic regression re-sends every time; starvation does not
+        r.violation(
+            &format!("C14:exported-twice:after-2xx-head-then-close:{}", transport.name()),
+            &format!(
+                "the collector answered a request with a complete 200 head ({}) and then closed the connection; in all {} repetitions the events of that request were exported again in a later request",
+                flavour, HEAD_CLOSE_REPS
+            ),
+            json!({"seed": seed, "case": case, "kind": "head-close", "transport": transport.name(), "flavour": flavour, "subset": subset_name(subset), "decision": decision.name(), "last_witness": witness}),
+        );
+    } else {
+        r.observe("head-close:sent-again-in-some-repetitions:observed-but-unjudged", 1);
+    }
+}
+
+// ---------------------------------------------------------------------------
+// many threads emitting at once: the discard counter is exact
+// ---------------------------------------------------------------------------
+
+fn run_concurrent(r: &mut Report, seed: u64, case: u64, thorough: bool) {
+    r.eval();
+    let mut g = Rng::stream(seed, &[14, 5, case]);
+    // subsets without logs discard a large share; the ones with logs must count nothing
+    let subset = [0u8, 2, 4, 6, 2, 4, 6, 0, 1, 3, 5][(case % 11) as usize];
+    let transport = Transport::ALL[(case / 11 % 3) as usize];
+    let gzip = g.bool();
+    let n_threads = 4 + g.usize(13);
+    let tname = transport.name();
+    // classed events whose destination the statement settles
+    let mut discard_pool: Vec<Ev> = Vec::new();
+    let mut export_pool: Vec<(Ev, Signal)> = Vec::new();
+    let mut k = 0;
+    while (discard_pool.len() < 24 && subset & 1 == 0) || export_pool.len() < 24 && subset != 0 {
+        let ev = gen_event(&mut g, 0, 1_000 + k);
+        k += 1;
+        match want(&ev, subset) {
+            Want::Exactly(None) if discard_pool.len() < 24 => discard_pool.push(ev),
+            Want::Exactly(Some(s)) if export_pool.len() < 24 => export_pool.push((ev, s)),
+            _ => {}
+        }
+        if k > 100_000 {
+            break;
+        }
+    }
+    let per_thread_discards: Vec<u64> = (0..n_threads).map(|_| if discard_pool.is_empty() { 0 } else if thorough { 30_000 + g.below(40_000) } else { 20_000 + g.below(15_000) }).collect();
+    // exported events stay well below the channel capacity (10 000 per signal), so nothing is truncated
+    let per_thread_exports: u64 = if export_pool.is_empty() { 0 } else { 3_000 / n_threads as u64 };
+    let case_json = |detail: Json| json!({"seed": seed, "case": case, "kind": "concurrent", "transport": tname, "gzip": gzip, "subset": subset_name(subset), "threads": n_threads,
+        "discards_per_thread": per_thread_discards, "exports_per_thread": per_thread_exports, "detail": detail});
+
+    let cfgs = Signal::ALL.into_iter().filter(|s| subset & s.bit() != 0).map(|s| EndpointCfg { signal: s, wire: transport.wire(), listen: true, script: vec![] }).collect();
+    let col = Collector::start(cfgs);
+    let otlp = build_otlp(&col, transport, gzip, subset);
+    let before = otlp.metric_source().event_discarded();
+    let barrier = std::sync::Barrier::new(n_threads);
+    let seeds: Vec<u64> = (0..n_threads).map(|_| g.next()).collect();
+    let exported: Vec<Vec<(u64, Signal, &'static str)>> = std::thread::scope(|scope| {
+        let handles: Vec<_> = (0..n_threads)
+            .map(|t| {
+                let (otlp, barrier, discard_pool, export_pool) = (&otlp, &barrier, &discard_pool, &export_pool);
+                let n_discard = per_thread_discards[t];
+                let mut g = Rng(seeds[t]);
+                scope.spawn(move || {
+                    let st = new_store();
+                    let mut mine = Vec::new();
+                    let total = n_discard + per_thread_exports;
+                    let every = if per_thread_exports == 0 { u64::MAX } else { (total / per_thread_exports).max(1) };
+                    let (mut d, mut e) = (0u64, 0u64);
+                    barrier.wait();
+                    for k in 0..total {
+                        let vid = case * 100_000_000 + t as u64 * 1_000_000 + k;
+                        let export_now = e < per_thread_exports && (d >= n_discard || k % every == every - 1);
+                        if export_now {
+                            let (ev, sig) = g.pick(export_pool);
+                            let mut ev = ev.clone();
+                            ev.vid = vid;
+                            emit_one(otlp, &ev, &st);
+                            mine.push((vid, *sig, ev.kind.name()));
+                            e += 1;
+                        } else {
+                            let mut ev = g.pick(discard_pool).clone();
+                            ev.vid = vid;
+                            emit_one(otlp, &ev, &st);
+                            d += 1;
+                        }
+                    }
+                    mine
+                })
+            })
+            .collect();
+        handles.into_iter().map(|h| h.join().expect("emitter thread")).collect()
+    });
+    let expected_discards: u64 = per_thread_discards.iter().sum();
+    let n_exported: usize = exported.iter().map(|v| v.len()).sum();
+    r.observe("concurrent:threads", n_threads as u64);
+    r.observe("concurrent:events-emitted", expected_discards + n_exported as u64);
+    if !otlp.blocking_flush(Duration::from_secs(120)) {
+        r.observe("concurrent:scenarios-inconclusive", 1);
+        r.inconclusive("concurrent-emitters scenario: blocking_flush returned false (120 s)");
+        return;
+    }
+    let ms = otlp.metric_source();
+    let discarded = (ms.event_discarded() - before) as u64;
+    col.settle();
+    let records = col.records();
+    r.observe("concurrent:discards-expected", expected_discards);
+    r.observe("concurrent:discards-counted", discarded);
+    r.observe("concurrent:scenarios-decided", 1);
+    r.nontrivial(&("concurrent", subset, tname, n_threads));
+    if discarded != expected_discards {
+        r.violation(
+            &format!("C14:discard-counter:concurrent:{}:{}", subset_name(subset), if discarded < expected_discards { "counted-less" } else { "counted-more" }),
+            &format!(
+                "{} threads emitted {} events that no configured signal ({}) can take, at the same time; event_discarded rose by {}",
+                n_threads,
+                expected_discards,
+                subset_name(subset),
+                discarded
+            ),
+            case_json(json!({"expected": expected_discards, "counted": discarded})),
+        );
+    }
+    // the exported rest: exactly one record each, on the endpoint of its signal
+    let mut seen: HashMap<u64, Vec<Signal>> = HashMap::new();
+    for rec in &records {
+        let Some(ps) = rec.path_signal() else { continue };
+        match rec.items() {
+            Ok(items) => {
+                for v in items.iter().filter_map(|i| i.vid()) {
+                    seen.entry(v).or_default().push(ps);
+                }
+            }
+            Err(e) => {
+                r.inconclusive(format!("concurrent-emitters scenario: undecodable {} request ({}): {}", ps.name(), tname, e));
+                return;
+            }
+        }
+    }
+    let mut accounted = 0u64;
+    for (vid, want_sig, kind) in exported.iter().flatten() {
+        let got = seen.remove(vid).unwrap_or_default();
+        if got.len() == 1 && got[0] == *want_sig {
+            accounted += 1;
+        } else {
+            r.violation(
+                &format!("C14:{}:concurrent:subset={}:want={}", if got.len() > 1 { "exported-more-than-once" } else { "wrong-signal" }, subset_name(subset), want_sig.name()),
+                &format!("event v{} ({}) emitted from one of {} concurrent threads was received by {:?}, expected exactly once by {}", vid, kind, n_threads, got.iter().map(|s| s.name()).collect::<Vec<_>>(), want_sig.name()),
+                case_json(json!({"vid": vid, "kind": kind, "received_by": got.iter().map(|s| s.name()).collect::<Vec<_>>()})),
+            );
+            break;
+        }
+    }
+    if !seen.is_empty() {
+        let extra: Vec<u64> = seen.keys().copied().take(5).collect();
+        r.violation(
+            &format!("C14:exported-although-no-signal-takes-it:concurrent:subset={}", subset_name(subset)),
+            &format!("{} events that the routing table drops (or that were never emitted) reached the collector, e.g. {:?}", seen.len(), extra),
+            case_json(json!({"vids": extra})),
+        );
+    }
+    r.observe("concurrent:exported-events-accounted", accounted);
+    // Other counters of the emitter with an exact value in a fault-free run. The statement only speaks
+    // about the discard counter, so these are evidence, not verdicts.
+    let acked = records.iter().filter(|rec| rec.acked()).count();
+    let exact: [(&str, usize, usize); 8] = [
+        ("transport_request_sent", ms.transport_request_sent(), records.len()),
+        ("http_batch_sent+grpc_batch_sent", ms.http_batch_sent() + ms.grpc_batch_sent(), acked),
+        ("transport_conn_established", ms.transport_conn_established(), col.conns().len()),
+        ("transport_request_compress_gzip", ms.transport_request_compress_gzip(), if gzip { records.len() } else { 0 }),
+        ("transport_conn_failed", ms.transport_conn_failed(), 0),
+        ("transport_request_failed", ms.transport_request_failed(), 0),
+        ("http_batch_failed+grpc_batch_failed", ms.http_batch_failed() + ms.grpc_batch_failed(), 0),
+        ("configuration_failed", ms.configuration_failed(), 0),
+    ];
+    for (name, got, want) in exact {
+        if got == want {
+            r.observe("concurrent:other-internal-metrics-exact", 1);
+        } else {
+            r.observe(&format!("concurrent:other-internal-metric-differs:{}", name), 1);
+        }
+    }
+    if r.wants_sample() && case < 2 {
+        let cj = case_json(json!({"discards_counted": discarded, "exported": n_exported, "requests": records.len()}));
+        r.sample(move || cj);
+    }
+    drop(otlp);
+    drop(col);
+}
+
 fn main() {
     let args = Args::parse();
     let mut r = Report::new(
@@ -944,6 +1274,24 @@ fn main() {
             }
             std::process::exit(r.finish());
         }
+        match case.get("kind").and_then(|v| v.as_str()) {
+            Some("head-close") => {
+                emit_batcher::verif::set_delay_divisor(100);
+                emit_otlp::verif::set_request_timeout(Some(Duration::from_secs(10)));
+                run_head_close(&mut r, s, c);
+                r.nontrivial(&("replay-run", 0));
+                r.observe("replayed", 1);
+                std::process::exit(r.finish());
+            }
+            Some("concurrent") => {
+                for i in 0..2 {
+                    run_concurrent(&mut r, s, c, args.thorough());
+                    r.nontrivial(&("replay-run", i));
+                }
+                std::process::exit(r.finish());
+            }
+            _ => {}
+        }
         let n = case.get("events").and_then(|v| v.as_u64()).unwrap_or(n_events);
         let sc = generate(s, c, n);
         run(&mut r, &sc, s);
@@ -969,5 +1317,21 @@ fn main() {
             run_split(r, seed, i / 16)
         }
     });
+
+    // A 2xx head, then the connection is closed. A generous request timeout: a client-side timeout
+    // before the head is read must be implausible here.
+    emit_otlp::verif::set_request_timeout(Some(Duration::from_secs(10)));
+    let n_head_close = args.n(32, 320);
+    par_cases(&mut r, &args, n_head_close * 16, |i, r| {
+        if i % 16 == 0 {
+            run_head_close(r, seed, i / 16)
+        }
+    });
+
+    // Many threads emitting at once (each scenario uses up to 16 threads itself: one after the other).
+    let thorough = args.thorough();
+    for i in 0..args.n(11, 132) {
+        run_concurrent(&mut r, seed, i, thorough);
+    }
     std::process::exit(r.finish());
 }
